@@ -173,9 +173,12 @@ func (i vfC10Inst) Rate() uint64 {
 	return 0
 }
 
-// vfC10Sink collects the installations of one world, keyed by the client's address.
+// vfC10Sink collects the installations of one world, keyed by the client's address. Every report
+// also goes into the world's ordered event log (kind cc_install), so that it can be placed before or
+// after the connection's auth_ok.
 type vfC10Sink struct {
 	mu     sync.Mutex
+	log    *vfNetLog
 	server map[string][]vfC10Inst // installed on the server's end of the connection from <client addr>
 	client map[string][]vfC10Inst // installed on the client's end
 }
@@ -198,11 +201,19 @@ func vfC10Observe(conn *quic.Conn, kind string, bps uint64, profile string) {
 	case sl != nil: // local end is a registered server address: server-side installation
 		sl.mu.Lock()
 		sl.server[r] = append(sl.server[r], inst)
+		lg := sl.log
 		sl.mu.Unlock()
+		if lg != nil {
+			lg.Ev("cc_install", r, map[string]any{"side": "server", "inst": inst})
+		}
 	case sr != nil:
 		sr.mu.Lock()
 		sr.client[l] = append(sr.client[l], inst)
+		lg := sr.log
 		sr.mu.Unlock()
+		if lg != nil {
+			lg.Ev("cc_install", l, map[string]any{"side": "client", "inst": inst})
+		}
 	default:
 		vfC10Reg.unrouted.Add(1)
 	}
@@ -228,14 +239,29 @@ func vfC10NewSink() (*vfC10Sink, string, func()) {
 	}
 }
 
-func (s *vfC10Sink) last(m map[string][]vfC10Inst, tag string) (vfC10Inst, int) {
+func (s *vfC10Sink) setLog(l *vfNetLog) {
+	s.mu.Lock()
+	s.log = l
+	s.mu.Unlock()
+}
+
+// effective returns the controller that drives this end after all reports: a "reno" report
+// installs nothing (quic-go's controller or whatever was installed before stays in place), so the
+// effective controller is the last report that really installed one (brutal / bbr); if there is
+// none it is quic-go's default, Reno ("reno" if that was reported, "none" if nothing was).
+func (s *vfC10Sink) effective(m map[string][]vfC10Inst, tag string) (vfC10Inst, int) {
 	s.mu.Lock()
 	defer s.mu.Unlock()
 	l := m[tag]
+	for i := len(l) - 1; i >= 0; i-- {
+		if l[i].Kind == "brutal" || l[i].Kind == "bbr" {
+			return l[i], len(l)
+		}
+	}
 	if len(l) == 0 {
 		return vfC10Inst{Kind: "none"}, 0
 	}
-	return l[len(l)-1], len(l)
+	return vfC10Inst{Kind: "reno"}, len(l)
 }
 
 // vfC10Match: does the installed controller realise want under configured controller cc?
@@ -316,6 +342,7 @@ func vfC10RunWorld(t *testing.T, k *vfKit, c vfC10Case) {
 		if err != nil {
 			t.Fatalf("harness: server %+v: %v", c.Srv, err)
 		}
+		sink.setLog(w.Log)
 		hy := make([]vfC10ConnObs, len(c.Clients))
 		raw := make([]vfC10ConnObs, len(c.Raw))
 		var wg sync.WaitGroup
@@ -372,14 +399,22 @@ func vfC10RunWorld(t *testing.T, k *vfKit, c vfC10Case) {
 func vfC10JudgeWorld(k *vfKit, c vfC10Case, sink *vfC10Sink, hy, raw []vfC10ConnObs, evs []vfEvent) {
 	connectTx := map[string][]uint64{}
 	authTx := map[string]uint64{}
+	authed := map[string]bool{}
+	preAuth := map[string][]vfC10Inst{} // server-end installations reported before the connection's auth_ok
 	for _, e := range evs {
 		switch e.Kind {
+		case "cc_install":
+			if side, _ := e.F["side"].(string); side == "server" && !authed[e.Tag] {
+				inst, _ := e.F["inst"].(vfC10Inst)
+				preAuth[e.Tag] = append(preAuth[e.Tag], inst)
+			}
 		case "el_connect":
 			tx, _ := e.F["tx"].(uint64)
 			connectTx[e.Tag] = append(connectTx[e.Tag], tx)
 		case "auth_ok":
 			tx, _ := e.F["tx"].(uint64)
 			authTx[e.Tag] = tx
+			authed[e.Tag] = true
 		}
 	}
 	rep := func(conn string, extra map[string]any) map[string]any {
@@ -391,7 +426,7 @@ func vfC10JudgeWorld(k *vfKit, c vfC10Case, sink *vfC10Sink, hy, raw []vfC10Conn
 	}
 	// server end of one accepted connection
 	serverSide := func(conn, tag string, reads []vfC10Decl, declared string) {
-		inst, n := sink.last(sink.server, tag)
+		inst, n := sink.effective(sink.server, tag)
 		k.Count("ev_server_install_reports", int64(n))
 		var wants []string
 		ok := false
@@ -400,8 +435,15 @@ func vfC10JudgeWorld(k *vfKit, c vfC10Case, sink *vfC10Sink, hy, raw []vfC10Conn
 			wants = append(wants, vfC10WantStr(want, c.Srv.CC))
 			ok = ok || vfC10Match(inst, want, c.Srv.CC)
 		}
+		pre := preAuth[tag]
+		k.Count("server_preauth_install_reports", int64(len(pre)))
 		if ok {
 			k.Count("ev_server_"+inst.Kind+"_as_ruled", 1)
+		} else if len(pre) > 0 {
+			// something was installed before authentication and the negotiation did not end in the ruled controller
+			k.Violation("server:preauth-controller-not-replaced-by-negotiation", rep(conn, map[string]any{"declared_cc_rx": declared, "effective": inst, "want": wants, "preauth_installs": pre}),
+				"server{maxTx=%d ignore=%v cc=%v} with client Hysteria-CC-RX %q: %d controller installation(s) reported before auth_ok (%s ...) and after the handshake the connection is driven by %s, rule demands %s",
+				uint64(c.Srv.MaxTx), c.Srv.Ignore, c.Srv.CC, declared, len(pre), vfC10InstStr(pre[0]), vfC10InstStr(inst), strings.Join(wants, " or "))
 		} else {
 			k.Violation("server:installed-rate-differs-from-rule", rep(conn, map[string]any{"declared_cc_rx": declared, "installed": inst, "want": wants}),
 				"server{maxTx=%d ignore=%v cc=%v} with client Hysteria-CC-RX %q installed %s, rule demands %s",
@@ -437,7 +479,7 @@ func vfC10JudgeWorld(k *vfKit, c vfC10Case, sink *vfC10Sink, hy, raw []vfC10Conn
 		k.Nontrivial(fmt.Sprintf("hy|%+v|%+v", c.Srv, cl))
 		serverSide(conn, o.Tag, []vfC10Decl{{Rx: uint64(cl.MaxRx)}}, strconv.FormatUint(uint64(cl.MaxRx), 10))
 		// client end
-		inst, n := sink.last(sink.client, o.Tag)
+		inst, n := sink.effective(sink.client, o.Tag)
 		k.Count("ev_client_install_reports", int64(n))
 		want := vfC10RefClient(uint64(cl.MaxTx), c.Srv.Ignore, uint64(c.Srv.MaxRx))
 		if vfC10Match(inst, want, cl.CC) {
@@ -474,7 +516,7 @@ func vfC10JudgeWorld(k *vfKit, c vfC10Case, sink *vfC10Sink, hy, raw []vfC10Conn
 		serverSide(conn, o.Tag, reads, hdr)
 		if (class == "overflow" || class == "ows") && !c.Srv.Ignore {
 			// which of the two admissible readings this tree takes (observation, not judged)
-			if inst, _ := sink.last(sink.server, o.Tag); inst.Kind == "brutal" {
+			if inst, _ := sink.effective(sink.server, o.Tag); inst.Kind == "brutal" {
 				k.Count("reading_"+class+"_as_number", 1)
 			} else {
 				k.Count("reading_"+class+"_as_unknown", 1)
@@ -545,6 +587,7 @@ func vfC10RunFake(t *testing.T, k *vfKit, c vfC10FakeCase) {
 		// a vfWorld without a Hysteria server: only Router/ServerAddr/closers are used (by HyClient)
 		w := &vfWorld{Router: vfNewRouter(5 * time.Millisecond), Log: &vfNetLog{}}
 		w.ServerAddr = &net.UDPAddr{IP: net.ParseIP(ip), Port: 443}
+		sink.setLog(w.Log)
 		ep := simnet.NewBlockingSimConn(w.ServerAddr, w.Router)
 		tr := &quic.Transport{Conn: ep}
 		ln, err := tr.Listen(http3.ConfigureTLSConfig(&tls.Config{Certificates: []tls.Certificate{vfTLSCert()}}),
@@ -633,7 +676,7 @@ func vfC10RunFake(t *testing.T, k *vfKit, c vfC10FakeCase) {
 				}
 				return m
 			}
-			inst, n := sink.last(sink.client, o.Tag)
+			inst, n := sink.effective(sink.client, o.Tag)
 			k.Count("ev_client_install_reports", int64(n))
 			var wants []string
 			ok := false
@@ -692,6 +735,19 @@ func vfC10GenNegotiate(k *vfKit) []vfC10Case {
 			cases = append(cases, c)
 		}
 	}
+	// reno corners: "use the configured controller" with type reno installs nothing, so whatever was
+	// put on the connection earlier stays; server reno x MaxTx {0, floor, 10^6} x ignore, clients
+	// declaring 0 and non-zero receive limits.
+	for ig := 0; ig < 2; ig++ {
+		for mi, m := range []uint64{0, 65536, 1_000_000} {
+			c := vfC10Case{CaseID: fmt.Sprintf("c10n-reno-%d-%d", ig, mi),
+				Srv: vfC10Srv{MaxTx: vfC10U64(m), MaxRx: vfC10U64(V[(mi+3)%nv]), Ignore: ig == 1, CC: vfC10CCs[3]}}
+			for j, rx := range []uint64{0, 0, 65536, 1_000_000_000, 0, math.MaxUint64} {
+				c.Clients = append(c.Clients, vfC10Cli{MaxTx: vfC10U64(V[(j+mi)%nv]), MaxRx: vfC10U64(rx), CC: vfC10CCs[(j+mi)%4]})
+			}
+			cases = append(cases, c)
+		}
+	}
 	if k.Quick() {
 		r := k.Rand("negotiate")
 		for wi := 0; wi < 30; wi++ {
@@ -739,8 +795,8 @@ func vfC10GenRaw(k *vfKit) []vfC10Case {
 	for i, stx := range vfC10Vals {
 		for ig := 0; ig < 2; ig++ {
 			for s, scc := range vfC10CCs {
-				if k.Quick() && s != (i+ig)%4 {
-					continue // quick: one controller per (MaxTx, ignore), rotating
+				if k.Quick() && s != (i+ig)%4 && !(s == 3 && (stx == 0 || stx == 65536 || stx == 1_000_000)) {
+					continue // quick: one controller per (MaxTx, ignore), rotating; reno always for MaxTx 0 / floor / 10^6
 				}
 				cases = append(cases, vfC10Case{CaseID: fmt.Sprintf("c10r-%d-%d-%d", i, ig, s),
 					Srv: vfC10Srv{MaxTx: vfC10U64(stx), MaxRx: vfC10U64(vfC10Vals[(i+n)%len(vfC10Vals)]), Ignore: ig == 1, CC: scc},
